@@ -184,7 +184,10 @@ fn add_types_recursive(
 ) {
     #[cfg(feature = "verif")]
     crate::verif::step(crate::verif::Site::AddTypesRecursive);
-    types.insert(ty);
+    if !types.insert(ty) {
+        // Already visited, so all contained types have been added as well.
+        return;
+    }
 
     match &module.types[ty].inner {
         naga::TypeInner::Pointer { base, .. } => add_types_recursive(types, module, *base),
